@@ -136,6 +136,13 @@ def gen_subject(r):
             params.append([p, r.choice([{"k": "const", "v": r.choice([0, "pp", None, True])},
                                         {"k": "opt", "key": r.choice(["D", "E", "B"]), "dk": "const", "dv": r.choice(["dd", 1])},
                                         {"k": "apply", "src": {"k": "ds", "id": "1"}, "fn": "tostr", "n": 1}])])
+    if params and r.random() < 0.25:
+        # a parameter NAMED like an option the same text reads ({A} and {:A:} are different things)
+        old, new = params[0][0], r.choice(["A", "B", "C", "D"])
+        text = text.replace("{:" + old + ":}", "{:" + new + ":}")
+        params[0][0] = new
+        if "{" + new + "}" not in text:
+            text += "{" + new + "}"
     tmpl = {"k": "tmpl", "text": text, "params": params}
     datasets = {"1": {"args": [["b", {"k": "opt", "key": "B", "dk": "const", "dv": "nb"}]]}}
     if kind == "tmpl":
